@@ -43,6 +43,17 @@ const (
 	Topic         = "/verif/c04"
 )
 
+func init() {
+	// The subscriber's HTTP clients (plain and libp2phttp) use http.DefaultTransport.
+	// net/http silently repeats an idempotent request that fails on a REUSED connection
+	// (e.g. one left in the idle pool by a dial made for a cancelled discovery request);
+	// the fault would then never reach Syncer.fetch.  Without pooled connections every
+	// injected fault is seen by the code under test.
+	if tr, ok := http.DefaultTransport.(*http.Transport); ok {
+		tr.DisableKeepAlives = true
+	}
+}
+
 func MkLinkSystem(ds datastore.Batching) ipld.LinkSystem {
 	lsys := cidlink.DefaultLinkSystem()
 	lsys.StorageReadOpener = func(lctx ipld.LinkContext, lnk ipld.Link) (io.Reader, error) {
@@ -571,7 +582,12 @@ func (r *Run) Do(op Op) (o Obs) {
 				o.Result, o.Err = "err", err.Error()
 				break
 			}
-			o.Events = r.collect(1, EventWait)
+			if o.Latest0 == op.Head {
+				// already synced: the announcement must not start anything; a short look suffices
+				o.Events = r.collect(1, 30*time.Millisecond)
+			} else {
+				o.Events = r.collect(1, EventWait)
+			}
 			if len(o.Events) == 0 {
 				o.Result = "noevent"
 			} else {
